@@ -33,5 +33,87 @@ let handle_int op args = match op, args with
     string_of_iudec (iu_decide (kind_i k) trunc_uint64 (List.nth all_fmts 1) (ity_i a) (ity_i b)
                        (z_of_string mn) (z_of_string mx))
   | _ -> "err driver:badop"
-let handle = handle_int
+(* ---- float layer.  A float is  z0 z1 (+-0) | i0 i1 (+-inf) | n (NaN) | f<s>:<m>:<e>  (canonical
+   mantissa/exponent of its format).  Input data:  f<k> <n> <float>*  |  i<t> <n> <int>*
+   w <kind> <tout> <data>      -> make_array_writer + to_fileobj + proxy-style reload
+   img <caps> <tout> <data>    -> the image class save (header refusal included) + reload
+   fr <k> <n> <float>*         -> finite_range(arr, check_nan=True) *)
+let sf_of_string s : spec_float =
+  match s with
+  | "z0" -> S754_zero false | "z1" -> S754_zero true
+  | "i0" -> S754_infinity false | "i1" -> S754_infinity true
+  | "n" -> S754_nan
+  | _ ->
+    (match String.split_on_char ':' (String.sub s 1 (String.length s - 1)) with
+     | [sg; m; e] -> (match z_of_string m with
+         | Zpos p -> S754_finite (sg = "1", p, z_of_string e)
+         | _ -> failwith "bad mantissa")
+     | _ -> failwith "bad float")
+let string_of_sf (x : spec_float) : string =
+  match x with
+  | S754_zero s -> if s then "z1" else "z0"
+  | S754_infinity s -> if s then "i1" else "i0"
+  | S754_nan -> "n"
+  | S754_finite (s, m, e) -> "f" ^ (if s then "1" else "0") ^ ":" ^ string_of_z (Zpos m) ^ ":" ^ string_of_z e
+let fid_i s = match s with "0" -> K16 | "1" -> K32 | "2" -> K64 | _ -> K80
+let string_of_fid = function K16 -> "0" | K32 -> "1" | K64 -> "2" | K80 -> "3"
+let parse_data args : indata =
+  match args with
+  | tag :: n :: rest ->
+    let n = int_of_string n in
+    let vals = take_n n rest in
+    if tag.[0] = 'f' then InF (fid_i (String.sub tag 1 (String.length tag - 1)), List.map sf_of_string vals)
+    else InI (ity_i (String.sub tag 1 (String.length tag - 1)), List.map z_of_string vals)
+  | _ -> failwith "bad data"
+let string_of_werr = function
+  | EWriterError -> "writer" | EScalingError -> "scaling" | ENanFillAssert -> "assert_nanfill"
+  | EIuAssert -> "assert_iu" | EValueNotFinite -> "value_notfinite" | EValueSlopeZero -> "value_slopezero"
+  | EValueNanFill -> "value_nanfill" | EHeaderType -> "header_type" | EHeaderData -> "header_data"
+  | EKind -> "kind" | EInternal e -> "internal_" ^ string_of_cerr e
+let string_of_back = function BI z -> string_of_z z | BF x -> string_of_sf x
+let show_write k0 tout r =
+  match r with
+  | Err e -> "err " ^ string_of_werr e
+  | Ok (sc, o) ->
+    let (k, back) = apply_read_scaling tout k0 sc.s_slope sc.s_inter o.o_raw in
+    "ok " ^ string_of_sf sc.s_slope ^ " " ^ string_of_sf sc.s_inter
+    ^ " tc=" ^ string_of_bool sc.s_testcast_bad ^ " bad=" ^ string_of_bool o.o_badcast
+    ^ " raw=" ^ string_of_zlist o.o_raw
+    ^ " back=" ^ string_of_fid k ^ ":" ^ String.concat "," (List.map string_of_back back)
+let handle_float op args = match op, args with
+  | "w", k :: t :: data -> let tout = ity_i t in show_write K64 tout (writer_write (kind_i k) (parse_data data) tout)
+  | "img", c :: t :: data -> let tout = ity_i t in show_write (if (caps_i c).slope_f32 then K32 else K64) tout (image_write (caps_i c) (parse_data data) tout)
+  | "fr", k :: n :: xs ->
+    let ((mn, mx), hn) = finite_range_f (fid_i k) (List.map sf_of_string (take_n (int_of_string n) xs)) in
+    "ok " ^ string_of_sf mn ^ " " ^ string_of_sf mx ^ " " ^ string_of_bool hn
+  | "fconv", [k; x] -> "ok " ^ string_of_sf (fconv (fid_i k) (sf_of_string x))
+  | "fofz", [k; z] -> "ok " ^ string_of_sf (f_of_Z (fid_i k) (z_of_string z))
+  | "frint", [k; x] -> "ok " ^ string_of_sf (frint (fid_i k) (sf_of_string x))
+  | "fdiv", [k; x; y] -> "ok " ^ string_of_sf (fdiv (fid_i k) (sf_of_string x) (sf_of_string y))
+  | "fsub", [k; x; y] -> "ok " ^ string_of_sf (fsub_ (fid_i k) (sf_of_string x) (sf_of_string y))
+  | "fadd", [k; x; y] -> "ok " ^ string_of_sf (fadd (fid_i k) (sf_of_string x) (sf_of_string y))
+  | "fmul", [k; x; y] -> "ok " ^ string_of_sf (fmul (fid_i k) (sf_of_string x) (sf_of_string y))
+  | _ -> handle_int op args
+(* ---- ideal layer.  A rational is <num>/<den>; an extended rational  q<num>/<den> | pinf | ninf | nan
+   aq <fmt> <tout> <s> <i> <mn> <mx> <nan2zero> <n> <x>*   -> array_to_file_q
+   rq <q>                                                  -> rint_q *)
+let q_of_string s : q =
+  match String.split_on_char '/' s with
+  | [n; d] -> (match z_of_string d with Zpos p -> { qnum = z_of_string n; qden = p } | _ -> failwith "bad den")
+  | [n] -> { qnum = z_of_string n; qden = XH }
+  | _ -> failwith "bad rational"
+let xq_of_string s : xq =
+  match s with
+  | "pinf" -> XQPInf | "ninf" -> XQNInf | "nan" -> XQNaN
+  | _ -> XQ (q_of_string (String.sub s 1 (String.length s - 1)))
+let handle_q op args = match op, args with
+  | "rq", [x] -> "ok " ^ string_of_z (rint_q (q_of_string x))
+  | "aq", f :: t :: s :: i :: mn :: mx :: n2z :: n :: xs ->
+    let xs = take_n (int_of_string n) xs in
+    (match array_to_file_q (fmt_i f) trunc_uint64 (ity_i t) (q_of_string s) (q_of_string i)
+             (xq_of_string mn) (xq_of_string mx) (bool_of_string n2z) (List.map xq_of_string xs) with
+     | None -> "err nanfill"
+     | Some l -> "ok bad=" ^ string_of_bool (List.exists snd l) ^ " raw=" ^ string_of_zlist (List.map fst l))
+  | _ -> handle_float op args
+let handle = handle_q
 let () = run_lines handle
